@@ -4,11 +4,12 @@ import ast
 import re
 
 from ..astutil import call_attr, call_recv, calls_in, const_value, norm, walk_own
+from ..rules import describe
 from ..selftest import Mutant
 
 ID = "C34"
 TECHNIQUE = "writer/reader key-table extraction and comparison (K6) between import_commit / export_commit and the roundtrip metadata codec (ast)"
-FLOOR = 34
+FLOOR = 36
 MP = "breezy/git/mapping.py"
 RT = "breezy/git/roundtrip.py"
 EXPLANATION = """
@@ -26,6 +27,8 @@ identity-verbatim (K8): the backward slice of `commit.author = …` and `commit.
 evaluated abstractly (the function ASTs are interpreted, nothing of the repository is executed) on well-formed
 `Name <email>` identities with commas, quotes and non-ASCII letters under three encodings: the exported bytes are the
 identity's own bytes.
+field-set-before-read (K4): export_commit assigns every field of the fresh dulwich Commit() before reading it (fields
+the constructor initialises — parsed from the installed dulwich source — and class-level members excepted).
 Does not decide: byte identity of the whole exported commit (timezones, message, extra headers), malformed identities.
 """
 READ_EXCEPTIONS = {"author": "read through rev.get_apparent_authors()"}
@@ -163,6 +166,54 @@ def run(ctx):
         if evaluable:
             ctx.fact(n_rows)
             ctx.check("identity-verbatim", we, not bad, f"`{target}` reproduces a well-formed identity byte for byte ({n_rows} rows: {len(idents)} identities x 3 encodings; slice of {len(sl)} statements)", construct=str(bad[:2]), message=f"export_commit rewrites a well-formed identity: {bad[:2]} — a git commit whose author or committer has this form is exported with different bytes, hence another SHA-1")
+    # ---- export_commit never reads a field of the commit it is building before it has set it (K4 def-use) --------
+    # The object is a fresh dulwich Commit(): only the fields its constructor initialises (parsed from the installed
+    # dulwich source, not imported) and class-level methods/properties exist before export_commit stores them.
+    import importlib.util
+
+    from ..cfg import build_cfg
+
+    spec = importlib.util.find_spec("dulwich")
+    dsrc = None
+    if spec is not None and spec.submodule_search_locations:
+        import os
+
+        cand = os.path.join(list(spec.submodule_search_locations)[0], "objects.py")
+        if os.path.exists(cand):
+            dsrc = ast.parse(open(cand, encoding="utf-8").read())
+    dcls = next((n for n in dsrc.body if isinstance(n, ast.ClassDef) and n.name == "Commit"), None) if dsrc is not None else None
+    if dcls is None:
+        ctx.info("field-set-before-read", we, "dulwich.objects.Commit source not found; not decided on this run")
+    else:
+        init = next((m for m in dcls.body if isinstance(m, ast.FunctionDef) and m.name == "__init__"), None)
+        inited = {n.attr.lstrip("_") for n in ast.walk(init) if isinstance(n, ast.Attribute) and isinstance(n.ctx, ast.Store) and norm(n.value) == "self"} if init is not None else set()
+        members = {m.name for m in dcls.body if isinstance(m, ast.FunctionDef)}
+        g = build_cfg(fe)
+        gx = g
+        stores, loads = {}, {}
+        for nd in g.nodes:
+            if nd.ast is None or nd.kind not in ("stmt", "test", "return"):
+                continue
+            root = nd.ast
+            for n in ast.walk(root) if not isinstance(root, (ast.FunctionDef, ast.ClassDef)) else []:
+                if isinstance(n, ast.Attribute) and isinstance(n.value, ast.Name) and n.value.id == "commit":
+                    (stores if isinstance(n.ctx, ast.Store) else loads).setdefault(n.attr, set()).add(nd.id)
+        probing = set()
+        for t in ast.walk(fe):
+            if isinstance(t, ast.Try) and any("AttributeError" in norm(h.type) for h in t.handlers if h.type is not None):
+                for n in ast.walk(t):
+                    if isinstance(n, ast.Attribute) and isinstance(n.value, ast.Name) and n.value.id == "commit":
+                        probing.add(n.attr)
+        n_loads = 0
+        for attr, at in sorted(loads.items()):
+            if attr in members or attr.lstrip("_") in inited or attr in probing:
+                continue
+            n_loads += 1
+            r_ = gx.reach([gx.entry], avoid=stores.get(attr, set()), include_src=True)
+            early = sorted(set(at) & r_ - stores.get(attr, set()))
+            w = gx.path([gx.entry], early, avoid=stores.get(attr, set())) if early else None
+            ctx.check("field-set-before-read", f"{we}[commit.{attr}]", not early, f"commit.{attr} is assigned on every path before it is read", construct=describe(g, early) if early else "", message=f"export_commit reads commit.{attr} of the Commit() it has just created before assigning it (dulwich's constructor does not initialise it): the branch raises AttributeError, so a revision that takes it can never be exported — that commit cannot make the round trip", witness=g.show_path(w) if w else None)
+        ctx.extra["commit_fields_read"] = n_loads
     # ---- the decode helper is retried with another encoding: it must not keep results of the failed attempt ------
     inner = [n for n in ast.walk(fi) if isinstance(n, ast.FunctionDef) and n is not fi and any(isinstance(x, ast.Nonlocal) for x in n.body)]
     retried = [n for n in inner if any(isinstance(l_, ast.For) and any(isinstance(c, ast.Call) and norm(c.func) == n.name for c in ast.walk(l_)) for l_ in ast.walk(fi))]
@@ -233,6 +284,7 @@ def run(ctx):
 
 
 MUTANTS = [
+    Mutant("committer timezone set after the author falls back to it", MP, "        commit.commit_timezone = rev.timezone\n        commit._author_timezone_neg_utc = \"author-timezone-neg-utc\" in rev.properties\n        if \"author-timezone\" in rev.properties:\n            commit.author_timezone = int(rev.properties[\"author-timezone\"])\n        else:\n            commit.author_timezone = commit.commit_timezone\n", "        commit._author_timezone_neg_utc = \"author-timezone-neg-utc\" in rev.properties\n        if \"author-timezone\" in rev.properties:\n            commit.author_timezone = int(rev.properties[\"author-timezone\"])\n        else:\n            commit.author_timezone = commit.commit_timezone\n        commit.commit_timezone = rev.timezone\n", expect="field-set-before-read", where="commit.commit_timezone"),
     Mutant("first author cut at any comma", MP, "        if \",\" in first_author and first_author.count(\">\") > 1:\n            first_author = first_author.split(\",\")[0]\n", "        if \",\" in first_author:\n            first_author = first_author.split(\",\")[0].strip()\n", expect="identity-verbatim"),
     Mutant("committer always encoded as utf-8", MP, "        commit.committer = fix_person_identifier(rev.committer.encode(encoding))\n", "        commit.committer = fix_person_identifier(rev.committer.encode(\"utf-8\"))\n", expect="identity-verbatim"),
     Mutant("neutral: authors list held in a local", MP, "        first_author = rev.get_apparent_authors()[0]\n", "        authors = rev.get_apparent_authors()\n        first_author = authors[0]\n", neutral=True),
